@@ -376,6 +376,15 @@ _reg(Spec("Tetrahedron", "field_BH_tetrahedron", "BHJM_magnet_tetrahedron",
           dict(observers=(3,), vertices=(4, 3), polarization=(3,)),
           dict(point_inside=point_inside_stub, check_chirality=chirality_stub, BHJM_triangle=None), "magnet",
           lengths=("observers", "vertices")))
+# TriangularMesh: regular branch (all meshes of the batch have the same facet count; 4 facets here), the in_out='auto' grouping loop is
+# cut separately (checks/c06_trimesh.py: every row gets  base + polarization*[inside its OWN mesh]); 'inside'/'outside' are the two
+# per-row behaviours the loop selects between
+_reg(Spec("TriangularMesh(in_out=inside)", "field_BH_triangularmesh", "BHJM_magnet_trimesh",
+          dict(observers=(3,), mesh=(4, 3, 3), polarization=(3,)), dict(BHJM_triangle=None), "magnet",
+          inside=lambda a: z3.BoolVal(True), extra_kwargs=dict(in_out="inside"), lengths=("observers", "mesh")))
+_reg(Spec("TriangularMesh(in_out=outside)", "field_BH_triangularmesh", "BHJM_magnet_trimesh",
+          dict(observers=(3,), mesh=(4, 3, 3), polarization=(3,)), dict(BHJM_triangle=None), "magnet",
+          outside=lambda a: z3.BoolVal(True), extra_kwargs=dict(in_out="outside"), lengths=("observers", "mesh")))
 _reg(Spec("Triangle", "field_BH_triangle", "BHJM_triangle",
           dict(observers=(3,), vertices=(3, 3), polarization=(3,)),
           dict(triangle_Bfield=st("triangle_B", 3)), "sheet", lengths=("observers", "vertices")))
